@@ -29,6 +29,7 @@ def run(prog, rep):
     rep.part(cellpdf, prog, rep)
     rep.part(joint, prog, rep)
     rep.part(compute, prog, rep)
+    rep.part(visible, prog, rep)
     rep.part(select, prog, rep)
     rep.part(grid, prog, rep)
     rep.part(ctor_stores, prog, rep, "C02.ctor", HDC, ["model", "alpha", "limits", "deltas"])
@@ -39,10 +40,15 @@ def run(prog, rep):
     rep.expect_min("C02.pairing", 2)
     rep.expect_min("C02.level", 1)
     rep.expect_min("C02.select", 5)
-    rep.expect_min("C02.warn", 3)
+    rep.expect_min("C02.warn", 6)
     rep.expect_min("C02.nan", 1)
     from .purity import row as _stateless_row
     rep.part(_stateless_row, prog, rep, "C02", 4)
+    # "cell probabilities are the documented CDF differences of the (conditional) distributions": the wiring of every family's cdf
+    # and of the conditional cdf is filed here too
+    from .shared import template_rows, conditional_rows
+    template_rows(prog, rep, "C02.template", ["cdf"], 50)
+    conditional_rows(prog, rep, "C02.conditional", ["cdf"], 4)
 
 def half_cell(cd, dx, sign):
     return ("bin", sign, cd, ("bin", "*", ("const", 0.5), dx))
@@ -305,6 +311,102 @@ def compute(prog, rep):
     ok = bool(nan) and cfg.dominates(cfg.node(cfg.enclosing(nan[0])[-1][0]), cfg.node(sel[0]))
     rep.check(ok, "C02.nan", f"{q}:nan", fn.where(nan[0]) if nan else fn.where(), "NaN density raises ValueError before the selection",
               "a NaN cell density must raise ValueError before the cumulative selection")
+
+
+def _own_calls(st):
+    """Call nodes evaluated by the statement itself (not by statements nested in it)."""
+    todo = []
+    for name, val in ast.iter_fields(st):
+        if name in ("body", "orelse", "finalbody", "handlers"):
+            continue
+        todo.extend(val if isinstance(val, list) else [val])
+    for v in todo:
+        if isinstance(v, ast.AST):
+            for n in ast.walk(v):
+                if isinstance(n, ast.Call):
+                    yield n
+
+
+def _suppressing(t):
+    """Does this call silence RuntimeWarnings for what follows?  simplefilter / filterwarnings with the action 'ignore' (or an
+    action that is not a constant) for a category that is RuntimeWarning or one of its bases (or none given)."""
+    if t[0] != "call" or t[1] not in (G("warnings.simplefilter"), G("warnings.filterwarnings")):
+        return False
+    kw = dict(t[3])
+    act = t[2][0] if t[2] else kw.get("action")
+    if act is not None and act[0] == "const" and act[1] != "ignore":
+        return False
+    pos = 1 if t[1] == G("warnings.simplefilter") else 2
+    cat = kw.get("category", t[2][pos] if len(t[2]) > pos else None)
+    return cat is None or cat[0] != "global" or cat in (G("RuntimeWarning"), G("Warning"), G("Exception"), G("BaseException"))
+
+
+def visible(prog, rep):
+    """The RuntimeWarning of a too small grid must reach the caller of the constructor: on the way from
+    HighestDensityContour(...) to the warnings.warn call nothing silences or records it."""
+    hdc = prog.cls(HDC)
+    chain = []
+    init = prog.lookup_method(hdc, "__init__")
+    seen = set()
+    ci = hdc
+    while init is not None and init.qualname not in seen:
+        seen.add(init.qualname)
+        chain.append(init)
+        nxt = None
+        for n in ast.walk(init.node):
+            if isinstance(n, ast.Call) and isinstance(n.func, ast.Attribute) and n.func.attr == "__init__" and isinstance(n.func.value, ast.Call) \
+                    and isinstance(n.func.value.func, ast.Name) and n.func.value.func.id == "super":
+                own = init.cls
+                rest = own.mro[1:] if own is not None else []
+                for c in rest:
+                    if "__init__" in c.methods:
+                        nxt = c.methods["__init__"]
+                        break
+        init = nxt
+    comp = prog.lookup_method(hdc, "_compute")
+    chain.append(comp)
+    n_sites = 0
+    for fn in chain:
+        rep.analysed(fn)
+        b = builder(prog, fn, inline=False)
+        cfg = cfg_of(fn)
+        for st in cfg.all_stmts():
+            on_path = False
+            for c in _own_calls(st):
+                f = c.func
+                if isinstance(f, ast.Attribute) and f.attr in ("_compute", "__init__") and fn is not comp:
+                    on_path = True
+                if fn is comp and _is_warn(b.term(c, st), "RuntimeWarning"):
+                    on_path = True
+            if not on_path:
+                continue
+            n_sites += 1
+            bad = []
+            for par, which in cfg.enclosing(st):
+                if isinstance(par, ast.With):
+                    for it in par.items:
+                        t = b.term(it.context_expr, par)
+                        if t[0] == "call" and t[1] == G("warnings.catch_warnings"):
+                            rec = dict(t[3]).get("record", t[2][0] if t[2] else None)
+                            if rec is not None and rec != ("const", False):
+                                bad.append(f"runs inside catch_warnings(record=...) (line {par.lineno}): the warning is collected, not shown")
+            # a silencing filter installed before the statement, in this function
+            for s2 in cfg.all_stmts():
+                for c in _own_calls(s2):
+                    t = b.term(c, s2)
+                    if not _suppressing(t) or s2 is st or not cfg.reachable(cfg.node(s2), cfg.node(st)):
+                        continue
+                    # a filter set inside a catch_warnings block is undone when that block is left
+                    scopes = [id(p_) for p_, _w in cfg.enclosing(s2) if isinstance(p_, ast.With)
+                              and any(b.term(i_.context_expr, p_)[:2] == ("call", G("warnings.catch_warnings")) for i_ in p_.items)]
+                    mine = {id(p_) for p_, _w in cfg.enclosing(st)}
+                    if all(x in mine for x in scopes):
+                        bad.append(f"{ast.unparse(c)[:60]} (line {s2.lineno}) is in force when this statement runs")
+            rep.check(not bad, "C02.warn", f"{fn.qualname}:audible:{ast.unparse(st).splitlines()[0][:40]}", fn.where(st),
+                      "no warning filter silences or records the RuntimeWarning on the way to the caller",
+                      "the RuntimeWarning of a grid that cannot hold 1 - alpha must reach the caller of the constructor: " + "; ".join(dict.fromkeys(bad)))
+    if n_sites < 3:
+        raise AnalysisError(f"C02.warn: construction path of {HDC} to the RuntimeWarning not found ({n_sites} sites)")
 
 
 def _is_warn(t, cat):
